@@ -628,4 +628,58 @@ theorem takeIdx_range (l : List Rat) : takeIdx l (List.range l.length) = l := by
   unfold takeIdx
   exact range_map_getD l
 
+/-! ### the clip of the bounded transfer acts on out-of-range input only -/
+
+/-- the value of the bounded trend transfer before `np.maximum(a, np.minimum(·, b))` -/
+def boundedRaw (a b qO qH qF : Rat) : Rat :=
+  if (decide (qH < qO) && decide (qF < qH)) || (decide (qH > qO) && decide (qF > qH)) then qO + qF - qH
+  else if decide (qH > qO) then a + (qO - a) * (qF - a) / (qH - a)
+  else if Py.isclose qH qO then qF
+  else b - (b - qO) * (b - qF) / (b - qH)
+
+theorem boundedTransfer_eq_clip (a b qO qH qF : Rat) :
+    boundedTransfer a b qO qH qF = max a (min (boundedRaw a b qO qH qF) b) := rfl
+
+/-- **for quantiles inside `[a, b]` the formula never leaves `[a, b]`**: the final clip of the bounded trend transfer
+    only acts on out-of-range input (a mutant that drops it is equivalent on the property's inputs) -/
+theorem boundedRaw_range (a b qO qH qF : Rat) (hO : a ≤ qO ∧ qO ≤ b) (hH : a ≤ qH ∧ qH ≤ b) (hF : a ≤ qF ∧ qF ≤ b) :
+    a ≤ boundedRaw a b qO qH qF ∧ boundedRaw a b qO qH qF ≤ b := by
+  unfold boundedRaw
+  by_cases hadd : ((decide (qH < qO) && decide (qF < qH)) || (decide (qH > qO) && decide (qF > qH))) = true
+  · rw [if_pos hadd]
+    simp only [Bool.or_eq_true, Bool.and_eq_true, decide_eq_true_eq] at hadd
+    rcases hadd with ⟨h1, h2⟩ | ⟨h1, h2⟩ <;> constructor <;> linarith [hO.1, hO.2, hF.1, hF.2]
+  · rw [if_neg hadd]
+    simp only [Bool.or_eq_true, Bool.and_eq_true, decide_eq_true_eq, not_or, not_and, not_lt] at hadd
+    by_cases hpos : qH > qO
+    · rw [if_pos (by simpa using hpos)]
+      have hF' : qF ≤ qH := hadd.2 hpos
+      have hd : 0 < qH - a := by linarith [hO.1]
+      have h0 : 0 ≤ (qO - a) * (qF - a) / (qH - a) :=
+        div_nonneg (mul_nonneg (by linarith [hO.1]) (by linarith [hF.1])) (le_of_lt hd)
+      have h1 : (qO - a) * (qF - a) / (qH - a) ≤ qO - a := by
+        rw [div_le_iff₀ hd]
+        exact mul_le_mul_of_nonneg_left (by linarith) (by linarith [hO.1])
+      constructor <;> linarith [hO.2]
+    · rw [if_neg (by simpa using hpos)]
+      by_cases hcl : Py.isclose qH qO = true
+      · rw [if_pos hcl]; exact hF
+      · rw [if_neg hcl]
+        have hne : qH ≠ qO := by
+          intro he; rw [he] at hcl; exact hcl (Lemmas.IsimipFreq.isclose_self qO)
+        have hneg : qH < qO := lt_of_le_of_ne (not_lt.mp hpos) hne
+        have hF' : qH ≤ qF := hadd.1 hneg
+        have hd : 0 < b - qH := by linarith [hO.2]
+        have h0 : 0 ≤ (b - qO) * (b - qF) / (b - qH) :=
+          div_nonneg (mul_nonneg (by linarith [hO.2]) (by linarith [hF.2])) (le_of_lt hd)
+        have h1 : (b - qO) * (b - qF) / (b - qH) ≤ b - qO := by
+          rw [div_le_iff₀ hd]
+          exact mul_le_mul_of_nonneg_left (by linarith) (by linarith [hO.2])
+        constructor <;> linarith [hO.1]
+
+theorem boundedTransfer_clip_noop (a b qO qH qF : Rat) (hO : a ≤ qO ∧ qO ≤ b) (hH : a ≤ qH ∧ qH ≤ b)
+    (hF : a ≤ qF ∧ qF ≤ b) : boundedTransfer a b qO qH qF = boundedRaw a b qO qH qF := by
+  obtain ⟨h1, h2⟩ := boundedRaw_range a b qO qH qF hO hH hF
+  rw [boundedTransfer_eq_clip, min_eq_left h2, max_eq_right h1]
+
 end Lemmas.C10
